@@ -32,6 +32,9 @@ func (a *application) start(mode gen.ApplicationMode, options gen.ApplicationOpt
 		return gen.ErrApplicationState
 	}
 
+	// forget the reason the previous run was terminated with
+	a.reason = nil
+
 	// build app env
 	appEnv := make(map[gen.Env]any)
 	// 1. from core env
@@ -121,6 +124,13 @@ func (a *application) stop(force bool, timeout time.Duration) error {
 	// update mode to prevent triggering 'permantent' mode
 	a.mode = gen.ApplicationModeTemporary
 
+	// the reason must be in place before the last member can terminate
+	if force {
+		a.reason = gen.TerminateReasonKill
+	} else {
+		a.reason = gen.TerminateReasonShutdown
+	}
+
 	// Kill may terminate the member right here, which calls back into
 	// a.terminate and takes the group lock: do not kill under Range
 	for _, pid := range a.members() {
@@ -129,12 +139,6 @@ func (a *application) stop(force bool, timeout time.Duration) error {
 		} else {
 			a.node.SendExit(pid, gen.TerminateReasonShutdown)
 		}
-	}
-
-	if force {
-		a.reason = gen.TerminateReasonKill
-	} else {
-		a.reason = gen.TerminateReasonShutdown
 	}
 
 	select {
